@@ -46,6 +46,21 @@ def run(ck):
                 # locate the first differing request
                 a, b = ii.split(), mm.split(); k = next((j for j, (x, y) in enumerate(zip(a, b)) if x != y), min(len(a), len(b)))
                 fails.append((st, l, k, a[k] if k < len(a) else "", b[k] if k < len(b) else ""))
+    # thorough tier: one request of 2^32 + 200 bytes (4 GiB of memory, about 8 s).  The model runner cannot produce 4 GiB of keystream; the
+    # harness compares sampled 64-byte blocks (first, last, around the 2^32-byte boundary, 256 others) with a portable block function of its own,
+    # which the same run validates against the assembly on the unchanged tree; the requests before and after are compared with the model
+    # (a zero-length request takes a nonce like any other)
+    if not q and not fails:
+        HL = (1 << 32) + 200
+        r1, o1, e1 = vf.run_io([exe], "3 5 %d 7\n" % HL, timeout=900)
+        rc2, mo2, me2 = vf.run_io([model, "prng"], "3 5 0 7\n", timeout=300)
+        it = o1.split(); mt = mo2.split("#")[0].split() if rc2 == 0 else []
+        lines.append(("one request of 2^32+200 bytes (sampled blocks, portable reference)", "3 5 %d 7" % HL))
+        if r1 != 0 or len(it) < 3: fails.append(("huge request", "3 5 %d 7" % HL, 1, "crash rc=%d %s" % (r1, e1[-200:]), "huge:%d:ok" % HL))
+        elif "NOMEM" in it[1]: ck.cov["huge_request"] = "skipped: 4 GiB could not be allocated"
+        elif it[1] != "huge:%d:ok" % HL or "CANARY-OVERWRITTEN" in o1: fails.append(("huge request", "3 5 %d 7" % HL, 1, " ".join(it[1:3]), "huge:%d:ok" % HL))
+        elif mt and (it[0] != mt[0] or it[2] != mt[2]): fails.append(("huge request", "3 5 %d 7" % HL, 0 if it[0] != mt[0] else 2, it[0] + " .. " + it[2], mt[0] + " .. " + mt[2]))
+        else: ck.cov["huge_request"] = "2^32+200 bytes: sampled blocks ok"
     nreq = sum(len(l.split()) - 1 for _, l in lines)
     st = {}
     for s, l in lines: st.setdefault(s, []).append(l)
